@@ -211,7 +211,7 @@ func healthStream(cfg *Config) *hx.Stats {
 	nWorlds := int(10 * cfg.Scale)
 	distinct := map[string]bool{}
 	viol := func(prog int, what, sig string) {
-		v := hx.Violation{Property: "C20", Stream: "health", Seed: cfg.Seed, Program: prog, What: what, Trace: w.Path, Sig: sig}
+		v := hx.Violation{Property: "C20", Stream: "health", Seed: cfg.Seed, Program: prog, What: what, Trace: w.Path, Line: w.Lines, Sig: sig}
 		st.Violations = append(st.Violations, v)
 	}
 	// runs the real check, writes the trace lines, compares with the model-free oracle
